@@ -192,6 +192,8 @@ package xmpp
 //@     assert[C07] !autoReply ==> !(iqOk && (typ == "get" || typ == "set") && !rw.wroteResp)
 //@   ensures[C07] handlerCalls <= 1
 //@   ensures[C07] autoReply ==> handlerCalls == 1
+//@   loop 1
+//@     invariant[C08] !compared && (forall j int :: 0 <= j && j <= rangeindex ==> !unq(start.Attr[j], "from"))
 
 // An error that ends the session is never turned into a nil result.
 //@ func (*Session).Serve
